@@ -252,6 +252,65 @@ impl C18 {
         Ok(n)
     }
 
+    /// (e') free-running stress of the read-only tree queries with a DIFFERENT argument per thread (a memo or
+    /// scratch buffer shared between calls shows only when calls for different positions really overlap): sampled
+    fn stress(&self, per_thread: usize, findings: &Findings) -> Result<u64, String> {
+        let mut rln = RLN::new(DEPTH, Cursor::new(json!({}).to_string())).map_err(|e| e.to_string())?;
+        let positions: Vec<usize> = vec![0, 1, 255, 256, (1 << 19) - 1, 1 << 19, 0xAAAAA, (1 << 20) - 1];
+        for (k, p) in positions.iter().enumerate() {
+            rln.set_leaf(*p, Cursor::new(codec::fr(&big(9000 + k as u64)))).map_err(|e| e.to_string())?;
+        }
+        let rln = Arc::new(rln);
+        let query = |r: &RLN, which: usize, p: usize| -> Vec<u8> {
+            let mut c = Cursor::new(vec![]);
+            let x = match which { 0 => r.get_proof(p, &mut c), 1 => r.get_leaf(p, &mut c), _ => r.get_subtree_root(7, p, &mut c) };
+            match x { Ok(()) => c.into_inner(), Err(e) => format!("err:{e}").into_bytes() }
+        };
+        // sequential oracle, checked against the ideal tree
+        let mut t = IdealTree::new(DEPTH);
+        for (k, p) in positions.iter().enumerate() {
+            t.set(*p as u64, &big(9000 + k as u64));
+        }
+        let oracle: Vec<Vec<Vec<u8>>> = positions.iter().map(|p| (0..3).map(|w| query(&rln, w, *p)).collect()).collect();
+        for (k, p) in positions.iter().enumerate() {
+            let (path, bits) = t.path(*p as u64);
+            let mut want = codec::vec_fr(&path);
+            want.extend(codec::vec_u8(&bits));
+            if oracle[k][0] != want || oracle[k][1] != codec::fr(&big(9000 + k as u64)) || oracle[k][2] != codec::fr(&t.node(7, (*p as u64) >> 13)) {
+                findings.report(Discrepancy { key: "C18/sequential/tree-query/differs-from-reference".into(), case: json!({"kind":"stress","position":p}), detail: format!("a tree query for position {p} made alone differs from the ideal tree") });
+            }
+        }
+        let oracle = Arc::new(oracle);
+        let barrier = Arc::new(Barrier::new(positions.len()));
+        let hs: Vec<_> = positions.iter().cloned().enumerate().map(|(k, p)| {
+            let (r, o, b) = (rln.clone(), oracle.clone(), barrier.clone());
+            std::thread::spawn(move || {
+                b.wait();
+                let mut bad = [0u64; 3];
+                for it in 0..per_thread {
+                    let which = if it % 8 < 6 { 0 } else if it % 8 == 6 { 1 } else { 2 };
+                    let mut c = Cursor::new(Vec::with_capacity(700));
+                    let x = match which { 0 => r.get_proof(p, &mut c), 1 => r.get_leaf(p, &mut c), _ => r.get_subtree_root(7, p, &mut c) };
+                    if x.is_err() || c.get_ref()[..] != o[k][which][..] {
+                        bad[which] += 1;
+                    }
+                }
+                bad
+            })
+        }).collect();
+        for (k, h) in hs.into_iter().enumerate() {
+            match h.join() {
+                Ok(bad) => for (w, n) in bad.iter().enumerate() {
+                    if *n > 0 {
+                        findings.report(Discrepancy { key: format!("C18/overlap/{}/differs-from-sequential", ["get_proof", "get_leaf", "get_subtree_root"][w]), case: json!({"kind":"stress","position":positions[k],"per_thread":per_thread}), detail: format!("{} of {} overlapping {} calls for position {} returned something else than the call made alone ({} threads querying different positions)", n, per_thread, ["get_proof", "get_leaf", "get_subtree_root"][w], positions[k], positions.len()) });
+                    }
+                },
+                Err(_) => findings.report(Discrepancy { key: "C18/overlap/thread-panicked".into(), case: json!({"kind":"stress"}), detail: "a querying thread died".into() }),
+            }
+        }
+        Ok((per_thread * positions.len()) as u64)
+    }
+
     /// (a) loom
     fn loom(&self, q: bool, findings: &Findings) -> Result<(u64, u64, Vec<Value>), String> {
         let bin = std::path::PathBuf::from(std::env::var("ZKV_BIN_DIR").unwrap_or_else(|_| "/verif/target/bin".into())).join("pmtree-loom");
@@ -447,6 +506,7 @@ impl Prop for C18 {
             }
             "loom" => { let _ = self.loom(true, &findings); findings.violations() }
             "relock" => { self.relock(true, &findings); findings.violations() }
+            "stress" => { let _ = self.stress(case["per_thread"].as_u64().unwrap_or(40_000) as usize, &findings); findings.violations() }
             _ => vec![],
         }
     }
@@ -469,6 +529,7 @@ impl Prop for C18 {
         // (e) sampled
         let nft = self.first_touch(findings)?;
         let nover = self.overlap(if q { 20 } else { 200 }, 4, findings, ctx.seed)?;
+        let nstress = self.stress(if q { 40_000 } else { 400_000 }, findings)?;
         ev.set("states", json!(outcomes.len().max(1)));
         ev.set("transitions", json!((n2 * 4 + n3 * 6) as u64));
         ev.set("traces_validated_against_impl", json!(n2 + n3 + schedules));
@@ -478,7 +539,7 @@ impl Prop for C18 {
         ev.set("interleavings", json!({"two_threads_x_two_calls": {"executions": n2, "interleavings_per_assignment": ints2}, "three_threads_x_two_calls": {"executions": n3, "interleavings_per_assignment": ints3}}));
         ev.set("pool_size_comparisons", json!(npool));
         ev.set("reopen_checks", json!(nrelock));
-        ev.set("sampled_rounds", json!({"free_running_overlap_calls": nover, "first_toucher_processes": nft, "note": "sampled: real parallel overlap is not enumerated, only run; it cannot make the check fail spuriously because the oracle is bit-equality with the sequential result of the same deterministic calls"}));
+        ev.set("sampled_rounds", json!({"free_running_overlap_calls": nover, "argument_varying_tree_query_stress_calls": nstress, "first_toucher_processes": nft, "note": "sampled: real parallel overlap is not enumerated, only run; it cannot make the check fail spuriously because the oracle is bit-equality with the sequential result of the same deterministic calls"}));
         ev.set("exhaustive", json!(true));
         ev.set("evaluations", json!(n2 + n3 + schedules + npool + nrelock));
         ev.set("distinct_nontrivial", json!(n2 + n3 + shapes));
